@@ -31,3 +31,35 @@ Proof.
   - unfold check_transmission. destruct (off_updated _ _); [intros []|].
     destruct (N.leb _ _); intros [].
 Qed.
+
+(* ---------- liveness, round level: once in the selecting state, two rounds with consensus produce the report ---------- *)
+Require Import Verif.Proofs.CommitMerkleP.
+
+Theorem select_then_build_reports max n prev q1 q2 c1 c2 k off on r :
+  next_state (o_type prev) = Selecting ->
+  NoDup (map fst (c_off c1)) -> (forall k m, alookup k (c_on c1) = Some m -> u64 m) -> (1 <= n)%N ->
+  (* messages are pending for chain k: agreed off-ramp next <= agreed on-ramp latest *)
+  In (k, off) (c_off c1) -> alookup k (c_on c1) = Some on -> (off <= on)%N ->
+  (* second round: not an RMN retry, no bundle (RMN disabled), the agreed roots include one for k *)
+  q_retry q2 = false -> q_sigs q2 = None -> In r (c_roots c2) ->
+  let o1 := get_outcome max n prev q1 (Some c1) in
+  let o2 := get_outcome max n o1 q2 (Some c2) in
+  o_type o1 = T_selected /\ In (k, (off, N.min on (off + n - 1))) (o_ranges o1) /\
+  o_type o2 = T_generated /\ In r (o_roots o2).
+Proof.
+  intros Hsel ND Hu Hn Hoff Hon Hle Hq2 Hs2 Hr. cbn zeta.
+  assert (E1 : get_outcome max n prev q1 (Some c1) = select_outcome c1 n).
+  { unfold get_outcome, get_outcome_with. rewrite Hsel. reflexivity. }
+  rewrite E1. unfold select_outcome, select_outcome_with.
+  destruct (report_ranges_with limit (c_on c1) (c_off c1) n) as [rs os] eqn:Err.
+  cbn [o_type o_ranges].
+  split; [reflexivity|].
+  pose proof (report_ranges_exact (c_on c1) (c_off c1) n rs os ND Hu Hn Err) as [Hin _].
+  split.
+  { apply Hin. exists on. repeat split; assumption. }
+  unfold get_outcome, get_outcome_with. cbn [o_type]. unfold T_selected, next_state. cbn [Z.eqb state_eqb].
+  rewrite Hq2. cbn [andb]. unfold build_report. rewrite Hs2.
+  assert (Hr' : In r (sort_by root_le (c_roots c2))) by (now apply sort_by_in).
+  unfold finish_report. destruct (sort_by root_le (c_roots c2)) as [|x l] eqn:Es; [contradiction|].
+  cbn [o_type o_roots]. split; [reflexivity|exact Hr'].
+Qed.
